@@ -239,3 +239,8 @@ Theorem c10_worker_untimed_deterministic : forall h sh t0 ls s,
     w_inner s = sink_run h sh t0 (map tev_op (w_trace s)).
 Proof. exact worker_untimed_deterministic. Qed.
 Print Assumptions c10_worker_untimed_deterministic.
+
+(* ... and it rejects nothing the specification allows: the checker decides the per-batch promise. *)
+Theorem c10_checker_decides : forall kf sh ep b, batch_okb kf sh ep b = true <-> batch_ok kf sh ep b.
+Proof. exact batch_okb_iff. Qed.
+Print Assumptions c10_checker_decides.
